@@ -45,6 +45,7 @@ pub fn merge_stats(into: &mut Stats, s: &Stats) {
     into.unknown_after_interrupt += s.unknown_after_interrupt;
     into.inconclusive += s.inconclusive;
     into.aborted += s.aborted;
+    into.bound_changes += s.bound_changes;
     into.states.extend_from_slice(&s.states);
     for (k, v) in &s.probes {
         *into.probes.entry(k.clone()).or_insert(0) += v;
@@ -119,11 +120,36 @@ fn general_pool() -> Vec<Kind> {
         let want: Vec<&str> = names.split(',').collect();
         k.retain(|x| want.contains(&format!("{x:?}").as_str()));
     }
+    if let Ok(names) = std::env::var("VERIF_SKIP_KINDS") {
+        let skip: Vec<&str> = names.split(',').collect();
+        k.retain(|x| !skip.contains(&format!("{x:?}").as_str()));
+    }
     k
+}
+
+/// Steering away from the regions of open findings (DESIGN.md §8), so that the rest of the space
+/// keeps its full budget and sensitivity; a small dedicated slice still visits each region.
+fn steer(case: &mut Case, rng: &mut Rng) {
+    // KF-001: the no-learning resolver does not support assumptions (it flips them like
+    // decisions); LinearUnsatSat optimisation is assumption-based as well
+    let uses_assumptions = case.ops.iter().any(|o| matches!(o, Op::Assume { .. } | Op::Optimise { sat_unsat: false, .. }));
+    let slice = matches!(case.prop.as_str(), "C04" | "C05" | "C07" | "C10") && rng.chance(0.02);
+    if !case.knobs.uip && uses_assumptions && !slice {
+        case.knobs.uip = true;
+        case.liveness = case.knobs.terminates();
+    }
 }
 
 /// The cases of one unit for the properties whose units are a fixed list of cases.
 pub fn gen_unit(prop: &str, tier: Tier, rng: &mut Rng) -> Vec<Case> {
+    let mut cases = gen_unit_raw(prop, tier, rng);
+    for c in cases.iter_mut() {
+        steer(c, rng);
+    }
+    cases
+}
+
+fn gen_unit_raw(prop: &str, tier: Tier, rng: &mut Rng) -> Vec<Case> {
     let th = thorough(tier);
     let checks = lib_checks(prop);
     match prop {
@@ -222,7 +248,7 @@ pub fn gen_unit(prop: &str, tier: Tier, rng: &mut Rng) -> Vec<Case> {
             sw.min_cons = 1;
             sw.max_cons = 2;
             sw.reif_rate = 0.0;
-            sw.cumulative_overload = rng.chance(0.3);
+            sw.cumulative_overload = rng.chance(0.3) && std::env::var("VERIF_NO_OVERLOAD").is_err();
             sw.alias = false;
             let (vars, mut cons) = gen_model(rng, &sw);
             if rng.chance(0.3) {
@@ -425,6 +451,12 @@ pub fn run_unit(prop: &str, tier: Tier, seed: u64, want_sample: bool) -> UnitRes
 
 fn absorb(res: &mut UnitResult, case: &Case, out: Outcome, want_sample: bool) {
     res.cases += 1;
+    if res.cases % 16 == 0 {
+        // heartbeat for the supervisor's watchdog (units of many cases)
+        use std::io::Write;
+        println!("H");
+        let _ = std::io::stdout().flush();
+    }
     res.traces.push((out.trace, out.nontrivial()));
     merge_stats(&mut res.stats, &out.stats);
     if want_sample && res.sample.is_none() && out.nontrivial() {
@@ -450,7 +482,14 @@ fn run_unit_c11(tier: Tier, rng: &mut Rng, want_sample: bool, res: &mut UnitResu
     let op = final_solve_op(rng, &vars, &[0, 1, 1, 3, 4]);
     ops.push(op.clone());
     let br = if rng.chance(0.8) { BrancherSpec::random_sched(rng) } else { BrancherSpec::random_builtin(rng) };
-    let knobs = Knobs::random(rng);
+    let mut knobs = Knobs::random(rng);
+    if matches!(op, Op::Optimise { sat_unsat: false, .. }) && !rng.chance(0.02) {
+        knobs.uip = true; // KF-001
+    }
+    // KF-002: after an interrupted LinearSatUnsat optimisation the solver keeps the bound of the
+    // best solution found; every later call is affected. Outside a small slice the solver is not
+    // asked again after such an interrupt (the answer at the interrupt itself is still judged).
+    let resume = !matches!(op, Op::Optimise { sat_unsat: true, .. }) || rng.chance(0.05);
     let twin = base_case("C11", "interrupt", knobs.clone(), br.clone(), ops.clone(), checks);
     let out = check_case(&twin);
     let n = out.polls_per_op.first().copied().unwrap_or(0);
@@ -476,7 +515,9 @@ fn run_unit_c11(tier: Tier, rng: &mut Rng, want_sample: bool, res: &mut UnitResu
         ops_k[n_model_ops].set_interrupt(Some(k));
         // ask the same solver again; for a SAT-UNSAT optimisation the resumed call is the same
         // optimisation, for the others the same operation without a fault
-        ops_k.push(op.clone());
+        if resume {
+            ops_k.push(op.clone());
+        }
         let case = base_case("C11", "interrupt", knobs.clone(), br.clone(), ops_k, checks);
         let out = check_case(&case);
         absorb(res, &case, out, false);
